@@ -264,6 +264,24 @@ def run(ctx):
                 r5.check(not direct, "arm-forwards-buffer:" + "".join(codes), "the %s arm appends to Client.buffer and forwards only Client.buffer" % "/".join(codes),
                          "the %s arm appends to Client.buffer but also forwards something else directly: bytes already pending in the buffer are overtaken and reach the server out of order" % "/".join(codes),
                          direct[0].where() if direct else "")
+            # ... and the same holds between the two places pending requests wait in: Parse / Bind / Describe / Execute / Close wait in the batch buffer
+            # (extended_protocol_data_buffer) for their Sync. A request that is sent at once - a simple Query - must not go out while that buffer holds
+            # messages the client sent before it: every way from the Query arm to its send finds the batch buffer empty or passes its replay (D84: it does not)
+            qarm = [t for v, t in code_sw[0].targets if v == 81]
+            if not qarm:
+                r5.missing("Query arm of the transaction loop")
+            else:
+                qsends = [c for c in h.calls("pgcat::client::Client::send_and_receive_loop", "pgcat::client::Client::send_server_message") if h.dominates(qarm[0], c.block)]
+                emptyT = set()
+                for sw_, o_, te_, fe_ in bool_value_edges(h, lambda o: o.kind == "call" and re.search(r"VecDeque.*::is_empty$", o.call.name) is not None
+                                                              and "extended_protocol_data_buffer" in fields_of(h, o.call.args[0]), hsw):
+                    emptyT.add(te_)
+                replay = [c.block for c in h.calls("re:VecDeque.*::(pop_front|drain)$") if "extended_protocol_data_buffer" in fields_of(h, c.args[0]) and h.dominates(qarm[0], c.block)]
+                wq = h.uncrossed_path([qarm[0]], [c.block for c in qsends], edges=emptyT, blocks=replay) if qsends else [0]
+                r5.check(bool(qsends) and wq is None, "query-does-not-overtake-a-pending-batch", "the Query arm sends only when no extended-protocol message is pending in the batch buffer (or after replaying it)",
+                         "the Query arm sends its message without looking at the batch buffer: `Parse, Bind, Execute, Query, Sync` reaches the server as `Query, Parse, Bind, Execute, Sync` - the same bytes in another order "
+                         "(PostgreSQL runs P B E before the Query; here the statement of the batch runs after the query that was meant to see it, in transaction mode on whichever connection the Sync gets)",
+                         qsends[0].where() if qsends else "")
             r5.check(n_arm >= 3, "buffering-arms", "%d arms of the transaction loop append to Client.buffer (Sync, CopyData, CopyDone/CopyFail)" % n_arm, "expected >= 3 buffering arms, found %d" % n_arm)
 
     # ---------------- R6 a framed message is read whole
@@ -317,6 +335,10 @@ def run(ctx):
                      "after the deadline cancelled read_message (possibly in the middle of a message) handle goes on reading the same client: the unread rest of the message is taken for new messages", t.where(), w8 and hh8.describe_path(w8))
         if n8 == 0:
             r8.missing("timeout around read_message in Client::handle")
+        # a select! cancels its losing branches just the same (D85: the shutdown branch of the idle loop goes on reading an admin's socket)
+        from common import select_cancelled_read_findings
+        for key_, ok_, good_, bad_, where_ in select_cancelled_read_findings(F) or []:
+            r8.check(ok_, key_, good_, bad_, where_)
 
     # ---------------- R9 the end of a COPY is awaited the way it was begun (D41)
     r9 = ctx.rule("C03-R9", "a COPY .. FROM STDIN started by Execute in an extended batch is answered, after CopyDone, with CommandComplete only - ReadyForQuery comes after the Sync that libpq sends next; "
